@@ -11,13 +11,31 @@
 //!   run max=<n> pol=lru|fifo pre=<ops> t=<ops>|<ops>[|<ops>] s=<digits>
 //!   -> pre=<answers> r=<answers>|… tr=<site per step>/<drain> n=<entry_count> b=<memory_usage> m=<contents>
 //! ops: g<k> c<k> r<k> z p<k>:<hex> x<k>:<hex> (x = put_with_ttl with TTL 0: MemoryCache reads
-//! std::time::Instant, `Instant::now() >= created + 0` holds at every later access).
+//! std::time::Instant, `Instant::now() >= created + 0` holds at every later access);
+//! w<digits> = ONE TICK OF THE BACKGROUND CLEANUP TASK (`start_cleanup_task`): a case with a `w`
+//! builds its cache with `MemoryCache::new_with_cleanup` inside a paused-clock current-thread
+//! runtime that belongs to the one thread whose program has the `w`s; a `w` drives that runtime
+//! until the task has run its loop body once (first tick: immediately; later ticks: the paused
+//! clock is advanced by the cleanup interval). The task's hooks `mem.cleanup.before_remove /
+//! before_count / before_bytes` (sites u / v / w) park that thread like any other operation, so
+//! the sweep is cut between its collection pass and every removal. The digits = the order in
+//! which the map iteration handed out the keys the sweep collected: DashMap hashes with a
+//! per-map random state, so the order is OBSERVED (the traced key type `SKey` logs `clone`,
+//! which the collection pass calls once per collected key) and printed on the request line;
+//! a line that already carries digits asks for that order (the run is repeated until the
+//! iteration agrees, at most ORDER_TRIES times).
 //!
 //! Oracle (implementation only): books at quiescence (entry_count = entries present,
 //! memory_usage = sum of their sizes), every `get` answer is a value some put wrote for that
 //! key, no operation fails, and the answers + final contents are linearizable (some sequential
 //! order consistent with real-time order explains them; entries may be forgotten only in runs
-//! where an eviction actually removed something).
+//! where an eviction actually removed something). Sweeps: every removal attempt of the cleanup
+//! task is an event of its own in that search (it may only remove an entry whose TTL has ended),
+//! and directly: a removal that deleted an entry whose last writer was a put with a long TTL
+//! fails with sig `mem-sweep-deletes-fresh-put` (the property's clause "a value written after an
+//! entry expired is not deleted by a reader that had seen the old entry"); books off in a run
+//! where a put landed between the sweep's collection and its removal of that key:
+//! `mem-sweep-counter-drift`.
 //!
 //! DiskCache under the same controller (hooks `disk.*`; model = lean Model/DiskConc):
 //!   drun keys=<cache key strings> pre=<ops> t=<ops>|<ops>[|<ops>] s=<digits>
@@ -77,11 +95,18 @@ mod real {
         Put(usize, Vec<u8>, bool),
         Remove(usize),
         Clear,
+        /// one tick of the background cleanup task; the keys in the order the map iteration
+        /// handed out the collected ones (empty = not known yet / any)
+        Sweep(Vec<usize>),
+        /// oracle-internal: one removal attempt of a sweep (`remove_if(key, is_expired)`)
+        SweepRm(usize),
     }
 
     impl Op {
         fn tok(&self) -> String {
             match self {
+                Op::Sweep(o) => format!("w{}", o.iter().map(|k| k.to_string()).collect::<String>()),
+                Op::SweepRm(k) => format!("W{k}"),
                 Op::Get(k) => format!("g{k}"),
                 Op::Contains(k) => format!("c{k}"),
                 Op::Remove(k) => format!("r{k}"),
@@ -96,6 +121,7 @@ mod real {
                 'c' => r.parse().ok().filter(|k| *k < NKEYS).map(Op::Contains),
                 'r' => r.parse().ok().filter(|k| *k < NKEYS).map(Op::Remove),
                 'z' if r.is_empty() => Some(Op::Clear),
+                'w' => r.chars().map(|c| c.to_digit(10).map(|d| d as usize)).collect::<Option<Vec<usize>>>().map(Op::Sweep),
                 'p' | 'x' => {
                     let (k, h) = r.split_once(':')?;
                     let k: usize = k.parse().ok().filter(|k| *k < NKEYS)?;
@@ -109,9 +135,12 @@ mod real {
         }
         fn key(&self) -> Option<usize> {
             match self {
-                Op::Get(k) | Op::Contains(k) | Op::Remove(k) | Op::Put(k, _, _) => Some(*k),
-                Op::Clear => None,
+                Op::Get(k) | Op::Contains(k) | Op::Remove(k) | Op::Put(k, _, _) | Op::SweepRm(k) => Some(*k),
+                Op::Clear | Op::Sweep(_) => None,
             }
+        }
+        fn is_sweep(&self) -> bool {
+            matches!(self, Op::Sweep(_))
         }
     }
 
@@ -165,7 +194,18 @@ mod real {
             if max == 0 || progs.len() > 9 {
                 return None;
             }
+            // one cleanup task per cache: its ticks are the operations of ONE thread
+            if progs.iter().filter(|p| p.iter().any(Op::is_sweep)).count() > 1 {
+                return None;
+            }
             Some((Case { max, fifo, pre, progs }, sched?))
+        }
+        fn has_sweep(&self) -> bool {
+            self.pre.iter().chain(self.progs.iter().flatten()).any(Op::is_sweep)
+        }
+        /// the thread that owns the cleanup task's runtime
+        fn sweeper(&self) -> Option<usize> {
+            self.progs.iter().position(|p| p.iter().any(Op::is_sweep))
         }
     }
 
@@ -214,6 +254,9 @@ mod real {
             "mem.evict.before_remove" => 'r',
             "mem.evict.before_count" => 's',
             "mem.evict.before_bytes" => 't',
+            "mem.cleanup.before_remove" => 'u',
+            "mem.cleanup.before_count" => 'v',
+            "mem.cleanup.before_bytes" => 'w',
             "disk.write.before_open" => 'A',
             "disk.write.before_write" => 'B',
             "disk.write.before_rename" => 'C',
@@ -303,19 +346,94 @@ mod real {
         RibbitKey::new(format!("k{n}"), "us")
     }
 
-    async fn exec(cache: &MemoryCache<RibbitKey>, op: &Op) -> String {
+    /// key types the MemoryCache cases run over: the crate's own RibbitKey, and — for cases with
+    /// the cleanup task — a traced key whose `clone` is logged (the collection pass of the
+    /// sweep clones exactly the keys it collects, in map-iteration order)
+    pub trait TKey: cascette_cache::key::CacheKey + 'static {
+        fn mk(n: usize) -> Self;
+    }
+
+    impl TKey for RibbitKey {
+        fn mk(n: usize) -> Self {
+            key(n)
+        }
+    }
+
+    thread_local! {
+        static CLONES: RefCell<Vec<usize>> = const { RefCell::new(Vec::new()) };
+    }
+
+    #[derive(Debug, PartialEq, Eq, Hash)]
+    pub struct SKey {
+        n: usize,
+        name: String,
+    }
+
+    impl Clone for SKey {
+        fn clone(&self) -> Self {
+            CLONES.with(|c| c.borrow_mut().push(self.n));
+            SKey { n: self.n, name: self.name.clone() }
+        }
+    }
+
+    impl cascette_cache::key::CacheKey for SKey {
+        fn as_cache_key(&self) -> &str {
+            &self.name
+        }
+    }
+
+    impl TKey for SKey {
+        fn mk(n: usize) -> Self {
+            SKey { n, name: format!("ribbit:k{n}:us") }
+        }
+    }
+
+    const SWEEP_INTERVAL: Duration = Duration::from_secs(60);
+    /// a request line that names the iteration order of its sweeps is re-run until the real
+    /// map iterates that way (2 expired keys: 1/2 per try, 3: 1/6)
+    const ORDER_TRIES: usize = 48;
+
+    /// The cleanup task's runtime (current thread, paused clock). Nothing runs on it unless
+    /// `tick` drives it, and `tick` returns when the task is back at `interval.tick().await`.
+    struct Sweeper {
+        rt: tokio::runtime::Runtime,
+        ticks: u32,
+    }
+
+    impl Sweeper {
+        /// one loop body of the real cleanup task; returns the keys it collected, in order
+        fn tick(&mut self) -> Vec<usize> {
+            CLONES.with(|c| c.borrow_mut().clear());
+            let first = self.ticks == 0;
+            self.ticks += 1;
+            self.rt.block_on(async move {
+                if !first {
+                    // Interval, MissedTickBehavior::Burst: exactly one more tick falls due
+                    tokio::time::advance(SWEEP_INTERVAL).await;
+                }
+                // the task is polled between two polls of this future; its body has no await
+                for _ in 0..4 {
+                    tokio::task::yield_now().await;
+                }
+            });
+            CLONES.with(|c| std::mem::take(&mut *c.borrow_mut()))
+        }
+    }
+
+    async fn exec<K: TKey>(cache: &MemoryCache<K>, op: &Op) -> String {
         match op {
-            Op::Get(k) => match cache.get(&key(*k)).await {
+            Op::Sweep(_) | Op::SweepRm(_) => "err".into(),
+            Op::Get(k) => match cache.get(&K::mk(*k)).await {
                 Ok(Some(b)) => format!("v{}", hex(&b)),
                 Ok(None) => "none".into(),
                 Err(_) => "err".into(),
             },
-            Op::Contains(k) => match cache.contains(&key(*k)).await {
+            Op::Contains(k) => match cache.contains(&K::mk(*k)).await {
                 Ok(true) => "t".into(),
                 Ok(false) => "f".into(),
                 Err(_) => "err".into(),
             },
-            Op::Remove(k) => match cache.remove(&key(*k)).await {
+            Op::Remove(k) => match cache.remove(&K::mk(*k)).await {
                 Ok(true) => "t".into(),
                 Ok(false) => "f".into(),
                 Err(_) => "err".into(),
@@ -326,7 +444,7 @@ mod real {
             },
             Op::Put(k, v, short) => {
                 let ttl = if *short { Duration::ZERO } else { LONG };
-                match cache.put_with_ttl(key(*k), Bytes::from(v.clone()), ttl).await {
+                match cache.put_with_ttl(K::mk(*k), Bytes::from(v.clone()), ttl).await {
                     Ok(()) => "ok".into(),
                     Err(_) => "err".into(),
                 }
@@ -348,7 +466,7 @@ mod real {
         Expired(u64),
     }
 
-    #[derive(Debug)]
+    #[derive(Debug, Clone)]
     pub struct Outcome {
         pre: Vec<String>,
         results: Vec<Vec<String>>,
@@ -364,9 +482,44 @@ mod real {
         contents: BTreeMap<usize, Slot>,
         timeout: bool,
         stuck: Option<(usize, usize, char)>,
+        /// keys collected by every sweep, in iteration order: (thread, op index); thread
+        /// usize::MAX = the pre operations
+        orders: BTreeMap<(usize, usize), Vec<usize>>,
+        /// the iteration orders the request line asked for were the ones that occurred
+        order_ok: bool,
+    }
+
+    /// `obs` (what a sweep collected) is in the order the hint `want` names
+    fn order_consistent(want: &[usize], obs: &[usize]) -> bool {
+        let mut it = want.iter();
+        want.is_empty() || obs.iter().all(|k| it.any(|w| w == k))
     }
 
     impl Outcome {
+        /// the case as executed: every sweep carries the iteration order that occurred (a hint
+        /// the run agreed with is kept as given)
+        fn resolved(&self, case: &Case) -> (Case, bool) {
+            let mut c = case.clone();
+            let mut ok = true;
+            let mut fix = |tid: usize, ops: &mut Vec<Op>| {
+                for (i, op) in ops.iter_mut().enumerate() {
+                    if let Op::Sweep(want) = op {
+                        let obs = self.orders.get(&(tid, i)).cloned().unwrap_or_default();
+                        if !order_consistent(want, &obs) {
+                            ok = false;
+                            *want = obs;
+                        } else if want.is_empty() {
+                            *want = obs;
+                        }
+                    }
+                }
+            };
+            fix(usize::MAX, &mut c.pre);
+            for (t, p) in c.progs.iter_mut().enumerate() {
+                fix(t, p);
+            }
+            (c, ok)
+        }
         fn response(&self) -> String {
             if self.timeout {
                 return "timeout".into();
@@ -485,31 +638,80 @@ mod real {
     /// Run one case on the real cache. `choose(step, alive)` names the next thread (it may name
     /// a finished one: skipped) or asks for the drain (lowest live thread first).
     pub fn execute(case: &Case, choose: &mut dyn FnMut(usize, &[usize]) -> Choice) -> Outcome {
+        if !case.has_sweep() {
+            return execute_k::<RibbitKey>(case, choose);
+        }
+        let mut tries = 0;
+        loop {
+            let out = execute_k::<SKey>(case, choose);
+            tries += 1;
+            if out.timeout || out.order_ok || tries >= ORDER_TRIES {
+                return out;
+            }
+        }
+    }
+
+    fn execute_k<K: TKey>(case: &Case, choose: &mut dyn FnMut(usize, &[usize]) -> Choice) -> Outcome {
         let mut cfg = MemoryCacheConfig::new()
             .with_max_entries(case.max)
             .with_eviction_policy(if case.fifo { EvictionPolicy::Fifo } else { EvictionPolicy::Lru });
         cfg.max_memory_bytes = None;
-        let cache: Arc<MemoryCache<RibbitKey>> = Arc::new(MemoryCache::new(cfg).expect("config"));
+        // a case with sweeps: the cache of `new_with_cleanup`, its cleanup task spawned on a
+        // paused-clock runtime that only `Sweeper::tick` drives
+        let mut sweeper: Option<Sweeper> = None;
+        let cache: Arc<MemoryCache<K>> = if case.has_sweep() {
+            cfg.cleanup_interval = SWEEP_INTERVAL;
+            let rt_s = tokio::runtime::Builder::new_current_thread().enable_time().start_paused(true).build().expect("rt");
+            let c = {
+                let _g = rt_s.enter();
+                MemoryCache::new_with_cleanup(cfg).expect("config")
+            };
+            sweeper = Some(Sweeper { rt: rt_s, ticks: 0 });
+            Arc::new(c)
+        } else {
+            Arc::new(MemoryCache::new(cfg).expect("config"))
+        };
         let rt = tokio::runtime::Builder::new_current_thread().build().expect("rt");
         inflight("mem", case.line(""), "pre-operations");
+        let orders: Arc<Mutex<BTreeMap<(usize, usize), Vec<usize>>>> = Arc::new(Mutex::new(BTreeMap::new()));
         let mut pre = vec![];
-        for op in &case.pre {
+        for (i, op) in case.pre.iter().enumerate() {
             advance_clocks();
-            pre.push(rt.block_on(exec(&cache, op)));
+            if op.is_sweep() {
+                // no controller on this thread: the tick runs through
+                let o = sweeper.as_mut().map(Sweeper::tick).unwrap_or_default();
+                orders.lock().unwrap_or_else(|e| e.into_inner()).insert((usize::MAX, i), o);
+                pre.push("ok".into());
+            } else {
+                pre.push(rt.block_on(exec(&*cache, op)));
+            }
         }
         advance_clocks();
         let nt = case.progs.len();
+        let ws = case.sweeper();
         let ctl = Arc::new(Ctl::new(nt));
         let results: Arc<Mutex<Vec<Vec<String>>>> = Arc::new(Mutex::new(vec![vec![]; nt]));
         let mut handles = vec![];
         for (tid, prog) in case.progs.iter().cloned().enumerate() {
-            let (ctl, cache, results) = (ctl.clone(), cache.clone(), results.clone());
+            let (ctl, cache, results, orders) = (ctl.clone(), cache.clone(), results.clone(), orders.clone());
+            let mut my_sweeper = if ws == Some(tid) { sweeper.take() } else { None };
             handles.push(std::thread::spawn(move || {
                 WORKER.with(|w| *w.borrow_mut() = Some((ctl.clone(), tid)));
                 let rt = tokio::runtime::Builder::new_current_thread().build().expect("rt");
-                for op in &prog {
+                for (i, op) in prog.iter().enumerate() {
                     ctl.park(tid, 'S');
-                    let r = catch(AssertUnwindSafe(|| rt.block_on(exec(&cache, op)))).unwrap_or_else(|_| "panic".into());
+                    let r = if op.is_sweep() {
+                        match my_sweeper.as_mut().map(|sw| catch(AssertUnwindSafe(|| sw.tick()))) {
+                            Some(Ok(o)) => {
+                                orders.lock().unwrap_or_else(|e| e.into_inner()).insert((tid, i), o);
+                                "ok".to_string()
+                            }
+                            Some(Err(_)) => "panic".into(),
+                            None => "err".into(),
+                        }
+                    } else {
+                        catch(AssertUnwindSafe(|| rt.block_on(exec(&*cache, op)))).unwrap_or_else(|_| "panic".into())
+                    };
                     results.lock().unwrap_or_else(|e| e.into_inner())[tid].push(r);
                 }
                 WORKER.with(|w| *w.borrow_mut() = None);
@@ -532,6 +734,8 @@ mod real {
             contents: BTreeMap::new(),
             timeout: d.timeout,
             stuck: d.stuck,
+            orders: BTreeMap::new(),
+            order_ok: true,
         };
         if out.timeout {
             // stuck workers cannot be joined; leave them parked
@@ -541,15 +745,17 @@ mod real {
             let _ = h.join();
         }
         out.results = results.lock().unwrap_or_else(|e| e.into_inner()).clone();
+        out.orders = orders.lock().unwrap_or_else(|e| e.into_inner()).clone();
+        out.order_ok = out.resolved(case).1;
         phase("quiescent-probes");
         // quiescence: read the books first, then probe the contents key by key
-        let size = |c: &MemoryCache<RibbitKey>| rt.block_on(c.size()).unwrap_or(usize::MAX) as u64;
-        let bytes = |c: &MemoryCache<RibbitKey>| c.cache_stats().memory_usage_bytes as u64;
+        let size = |c: &MemoryCache<K>| rt.block_on(c.size()).unwrap_or(usize::MAX) as u64;
+        let bytes = |c: &MemoryCache<K>| c.cache_stats().memory_usage_bytes as u64;
         out.n = size(&cache);
         out.b = bytes(&cache);
         for k in 0..NKEYS {
             let (n0, b0) = (size(&cache), bytes(&cache));
-            match rt.block_on(cache.get(&key(k))) {
+            match rt.block_on(cache.get(&K::mk(k))) {
                 Ok(Some(v)) => {
                     out.contents.insert(k, Slot::Live(v.to_vec()));
                 }
@@ -639,6 +845,21 @@ mod real {
                     r.insert(*k, if *short { RefSlot::Expired(v.len() as u64) } else { RefSlot::Live(v.clone()) });
                     res == "ok"
                 }
+                // a whole tick run alone (pre operations): every entry whose TTL has ended goes
+                Op::Sweep(_) => {
+                    r.retain(|_, s| !matches!(s, RefSlot::Expired(_)));
+                    res == "ok"
+                }
+                // one removal attempt of the cleanup task, `t` = it removed something: it removes
+                // an entry whose TTL has ended and NOTHING else (never a live value, evictions or
+                // not: the sweep is not an eviction)
+                Op::SweepRm(k) => match r.get(k) {
+                    Some(RefSlot::Expired(_)) => {
+                        r.remove(k);
+                        res == "t" || self.drops
+                    }
+                    _ => res == "f",
+                },
             }
         }
         fn final_ok(&self, r: &BTreeMap<usize, RefSlot>) -> bool {
@@ -728,6 +949,124 @@ mod real {
         hits
     }
 
+    /// what the sweeps of a run did, read off the step trace
+    #[derive(Default)]
+    struct SweepFacts {
+        /// removal attempts in step order: (step, thread, op index, key, removed something?)
+        attempts: Vec<(usize, usize, usize, usize, bool)>,
+        /// a put inserted under a collected key between the collection and that key's attempt
+        window_hits: usize,
+        /// … and the attempt then removed something (so the books depend on WHAT it booked)
+        window_removed: usize,
+        /// … and the attempt left the value alone
+        window_spared: usize,
+        /// direct clause: the attempt removed an entry whose last writer was a long-TTL put
+        deleted_fresh: Vec<String>,
+    }
+
+    fn sweep_facts(case: &Case, out: &Outcome) -> SweepFacts {
+        let mut f = SweepFacts::default();
+        if !case.has_sweep() {
+            return f;
+        }
+        // who wrote what is stored under a key, as far as the trace tells: Some(short?) = an
+        // entry written by a put of that TTL class, None = nothing stored; `blind` = an eviction
+        // removed an entry the trace does not name, so the direct clause stands back
+        let mut shadow: BTreeMap<usize, Option<(bool, String)>> = BTreeMap::new();
+        let mut blind = case.max < 100;
+        for op in &case.pre {
+            match op {
+                Op::Put(k, _, short) => {
+                    shadow.insert(*k, Some((*short, format!("pre {}", op.tok()))));
+                }
+                Op::Remove(k) => {
+                    shadow.insert(*k, None);
+                }
+                Op::Get(k) | Op::Contains(k) => {
+                    if matches!(shadow.get(k), Some(Some((true, _)))) {
+                        shadow.insert(*k, None);
+                    }
+                }
+                Op::Clear => shadow.clear(),
+                Op::Sweep(_) => shadow.retain(|_, v| !matches!(v, Some((true, _)))),
+                Op::SweepRm(_) => {}
+            }
+        }
+        // per sweep (thread, op): step of its collection pass, number of attempts seen so far
+        let mut collected_at: BTreeMap<(usize, usize), usize> = BTreeMap::new();
+        let mut nth: BTreeMap<(usize, usize), usize> = BTreeMap::new();
+        let mut last_insert: BTreeMap<usize, usize> = BTreeMap::new();
+        for (i, s) in out.steps.iter().enumerate() {
+            let Some(op) = case.progs.get(s.tid).and_then(|p| p.get(s.op)) else { continue };
+            match (s.before, s.after, op) {
+                ('h', 'i' | 'j', Op::Put(k, _, short)) => {
+                    shadow.insert(*k, Some((*short, format!("thread {} {} (step {i})", s.tid, op.tok()))));
+                    last_insert.insert(*k, i);
+                }
+                ('S', 'l', Op::Remove(k)) | ('a', 'b', Op::Get(k)) | ('d', 'e', Op::Contains(k)) => {
+                    shadow.insert(*k, None);
+                }
+                ('S', 'n', Op::Clear) => shadow.clear(),
+                ('r', 's', _) => blind = true,
+                ('S', _, Op::Sweep(_)) => {
+                    collected_at.insert((s.tid, s.op), i);
+                }
+                _ => {}
+            }
+            if s.before == 'u' && op.is_sweep() {
+                let j = *nth.entry((s.tid, s.op)).and_modify(|n| *n += 1).or_insert(0);
+                let Some(k) = out.orders.get(&(s.tid, s.op)).and_then(|o| o.get(j)).copied() else { continue };
+                let removed = s.after == 'v';
+                f.attempts.push((i, s.tid, s.op, k, removed));
+                let c = collected_at.get(&(s.tid, s.op)).copied().unwrap_or(0);
+                if last_insert.get(&k).is_some_and(|m| *m > c) {
+                    f.window_hits += 1;
+                    if removed {
+                        f.window_removed += 1;
+                    } else {
+                        f.window_spared += 1;
+                    }
+                }
+                if removed {
+                    if let (false, Some(Some((false, who)))) = (blind, shadow.get(&k)) {
+                        f.deleted_fresh.push(format!(
+                            "the cleanup task (thread {}, collection pass at step {c}) removed key {k} at step {i}, but what was stored under it then had been written by {who} with a long TTL: a value written after the entry expired was deleted by the sweep that had seen the old entry",
+                            s.tid
+                        ));
+                    }
+                    shadow.insert(k, None);
+                }
+            }
+        }
+        f
+    }
+
+    /// the programs with every sweep replaced by its removal attempts (one event each, at the
+    /// step it happened), for the linearizability search
+    fn expand_sweeps(case: &Case, out: &Outcome, iv: &[Vec<(usize, usize)>], sf: &SweepFacts) -> (Case, Outcome, Vec<Vec<(usize, usize)>>) {
+        let (mut c, mut o, mut v) = (case.clone(), out.clone(), vec![]);
+        for (t, p) in case.progs.iter().enumerate() {
+            let (mut ops, mut res, mut ivs) = (vec![], vec![], vec![]);
+            for (i, op) in p.iter().enumerate() {
+                if op.is_sweep() {
+                    for (step, _, _, k, removed) in sf.attempts.iter().filter(|a| a.1 == t && a.2 == i) {
+                        ops.push(Op::SweepRm(*k));
+                        res.push(if *removed { "t".to_string() } else { "f".to_string() });
+                        ivs.push((*step, *step));
+                    }
+                } else {
+                    ops.push(op.clone());
+                    res.push(out.results[t].get(i).cloned().unwrap_or_default());
+                    ivs.push(iv[t][i]);
+                }
+            }
+            c.progs[t] = ops;
+            o.results[t] = res;
+            v.push(ivs);
+        }
+        (c, o, v)
+    }
+
     /// another thread's operation overlaps a clear in real time
     fn clear_overlaps(case: &Case, iv: &[Vec<(usize, usize)>]) -> bool {
         for (t, p) in case.progs.iter().enumerate() {
@@ -754,17 +1093,23 @@ mod real {
 
     struct Verdict {
         window_hits: usize,
+        sweep: SweepFacts,
         fails: Vec<(String, String)>,
     }
 
     fn oracle(case: &Case, out: &Outcome) -> Verdict {
         let mut fails = vec![];
         if out.timeout {
-            return Verdict { window_hits: 0, fails: vec![("mem-schedule-stuck".into(), stuck_msg(&case.progs, out.stuck))] };
+            return Verdict { window_hits: 0, sweep: SweepFacts::default(), fails: vec![("mem-schedule-stuck".into(), stuck_msg(&case.progs, out.stuck))] };
         }
         let iv = intervals(case, out);
         let hits = expired_window_hits(case, out);
         let clr = clear_overlaps(case, &iv);
+        let sf = sweep_facts(case, out);
+        // a value written after an entry expired is not deleted by the sweep that saw the old entry
+        for m in &sf.deleted_fresh {
+            fails.push(("mem-sweep-deletes-fresh-put".into(), m.clone()));
+        }
         // no operation fails
         for (t, rs) in out.results.iter().enumerate() {
             for (i, r) in rs.iter().enumerate() {
@@ -798,6 +1143,8 @@ mod real {
                 "mem-counter-drift-expired-race"
             } else if clr {
                 "mem-clear-races-put"
+            } else if sf.window_removed > 0 {
+                "mem-sweep-counter-drift"
             } else {
                 "mem-books-quiescent"
             };
@@ -815,15 +1162,22 @@ mod real {
         }
         let evicted = out.steps.iter().any(|s| s.after == 's');
         // sequential pre-phase evictions (small max) also forget entries
-        let lin = Lin { case, out, iv, drops: evicted || case.max < 100, disk: false };
         if out.results.iter().zip(case.progs.iter()).all(|(r, p)| r.len() == p.len()) {
+            let (xcase, xout, xiv) = expand_sweeps(case, out, &iv, &sf);
+            let lin = Lin { case: &xcase, out: &xout, iv: xiv, drops: evicted || case.max < 100, disk: false };
             let mut next = vec![0usize; case.progs.len()];
             if !lin.search(&mut next, &r0) {
-                let sig = if hits > 0 { "mem-expired-get-deletes-fresh-put" } else { "mem-not-linearizable" };
-                fails.push((sig.into(), format!("no sequential order consistent with real-time order explains answers {:?} and final contents {:?}", out.results, out.contents)));
+                let sig = if hits > 0 {
+                    "mem-expired-get-deletes-fresh-put"
+                } else if sf.window_removed > 0 {
+                    "mem-sweep-deletes-fresh-put"
+                } else {
+                    "mem-not-linearizable"
+                };
+                fails.push((sig.into(), format!("no sequential order consistent with real-time order explains answers {:?}, the sweeps' removal attempts {:?} (step, thread, op, key, removed) and final contents {:?}", out.results, sf.attempts, out.contents)));
             }
         }
-        Verdict { window_hits: hits, fails }
+        Verdict { window_hits: hits, sweep: sf, fails }
     }
 
     // ------------------------------------------------------------------ running cases
@@ -977,9 +1331,26 @@ mod real {
 
     impl Runner {
         fn emit(&mut self, case: &Case, out: &Outcome) {
+            // the request line names the iteration order every sweep really had
+            let (resolved, order_ok) = out.resolved(case);
+            let case = &resolved;
             let line = case.line(&out.sched);
             self.s.line(&line, &out.response());
             let v = oracle(case, out);
+            if case.has_sweep() {
+                self.s.tally("sweep:schedules");
+                self.s.tally_n("sweep:removal-attempts", v.sweep.attempts.len() as u64);
+                self.s.tally_n("sweep:removals", v.sweep.attempts.iter().filter(|a| a.4).count() as u64);
+                self.s.tally_n("sweep:put-landed-between-collection-and-removal", v.sweep.window_hits as u64);
+                self.s.tally_n("sweep:…and-the-fresh-value-was-spared", v.sweep.window_spared as u64);
+                self.s.tally_n("sweep:…and-the-expiring-rewrite-was-removed", v.sweep.window_removed as u64);
+                if out.orders.values().any(|o| o.len() >= 2) {
+                    self.s.tally("sweep:collected-2+-keys");
+                }
+                if !order_ok {
+                    self.s.tally("sweep:requested-iteration-order-not-reproduced");
+                }
+            }
             let switched = out.steps.windows(2).any(|w| w[0].tid != w[1].tid && w[0].after != 'S' && w[0].after != 'D');
             self.s.case(if switched { Some(line.as_str()) } else { None });
             self.s.tally(&format!("threads={}", case.progs.len()));
@@ -1126,7 +1497,7 @@ mod real {
             let s = t[4].strip_prefix("s=")?;
             let sched: Option<Vec<usize>> =
                 if s == "-" { Some(vec![]) } else { s.chars().map(|c| c.to_digit(10).map(|d| d as usize)).collect() };
-            if progs.len() > 9 || pre.iter().chain(progs.iter().flatten()).any(|o| *o == Op::Clear) {
+            if progs.len() > 9 || pre.iter().chain(progs.iter().flatten()).any(|o| *o == Op::Clear || o.is_sweep()) {
                 return None;
             }
             Some((DCase { pre, progs }, sched?))
@@ -1150,7 +1521,7 @@ mod real {
                 Ok(false) => "f".into(),
                 Err(_) => "err".into(),
             },
-            Op::Clear => "bad".into(),
+            Op::Clear | Op::Sweep(_) | Op::SweepRm(_) => "bad".into(),
             Op::Put(k, v, short) => {
                 let ttl = if *short { Duration::ZERO } else { LONG };
                 match cache.put_with_ttl(dkey(*k), Bytes::from(v.clone()), ttl).await {
@@ -1460,7 +1831,7 @@ mod real {
                     _ => {}
                 }
             }
-            let mout = Outcome { pre: out.pre.clone(), results: out.results.clone(), sched: String::new(), trace: String::new(), drain: String::new(), steps: vec![], alive: vec![], n: 0, b: 0, contents, timeout: false, stuck: None };
+            let mout = Outcome { pre: out.pre.clone(), results: out.results.clone(), sched: String::new(), trace: String::new(), drain: String::new(), steps: vec![], alive: vec![], n: 0, b: 0, contents, timeout: false, stuck: None, orders: BTreeMap::new(), order_ok: true };
             let mut r0: BTreeMap<usize, RefSlot> = BTreeMap::new();
             let pre_lin = Lin { case: &mcase, out: &mout, iv: vec![], drops: false, disk: true };
             for (op, res) in case.pre.iter().zip(out.pre.iter()) {
@@ -2231,6 +2602,109 @@ mod real {
         Case { max, fifo: rng.chance(1, 3), pre, progs }
     }
 
+    // ---- the background cleanup task (sweep) against the foreground operations
+
+    /// start states for the sweep sections: one expired entry; two; an expired and a live one;
+    /// a live one only (the sweep must find nothing)
+    fn sweep_pres() -> Vec<Vec<Op>> {
+        vec![
+            vec![Op::Put(0, vec![0xf6; 6], true)],
+            vec![Op::Put(0, vec![0xf6; 6], true), Op::Put(1, vec![0x97; 7], true)],
+            vec![Op::Put(0, vec![0xf6; 6], true), Op::Put(1, vec![0x97; 7], false)],
+            vec![Op::Put(0, vec![0xe5; 5], false)],
+        ]
+    }
+
+    /// iteration orders asked of the map: a permutation of all keys (only 0 and 1 ever expire
+    /// in the enumerated sections)
+    fn sweep_hints(pre: &[Op]) -> Vec<Vec<usize>> {
+        let two = pre.iter().filter(|op| matches!(op, Op::Put(_, _, true))).count() >= 2;
+        if two { vec![vec![0, 1, 2, 3], vec![1, 0, 2, 3]] } else { vec![vec![0, 1, 2, 3]] }
+    }
+
+    fn random_sweep_case(rng: &mut Rng, nt: usize) -> Case {
+        let max = *rng.pick(&[1000usize, 1000, 1000, 1000, 2, 3]);
+        let mut pre = vec![];
+        for _ in 0..rng.range(1, 4) {
+            let k = if rng.chance(1, 2) { 0 } else { rng.below(NKEYS as u64) as usize };
+            let n = rng.range(1, 6) as usize;
+            pre.push(Op::Put(k, vec![rng.byte(); n], rng.chance(2, 3)));
+        }
+        if rng.chance(1, 8) {
+            // the first tick is spent before the threads start: the scheduled one is a later tick
+            pre.push(Op::Sweep(vec![]));
+            let k = rng.below(2) as usize;
+            pre.push(Op::Put(k, vec![rng.byte(); rng.range(1, 6) as usize], true));
+        }
+        let sweeper = match rng.below(20) {
+            0..=11 => vec![Op::Sweep(vec![])],
+            12..=16 => vec![Op::Sweep(vec![]), Op::Sweep(vec![])],
+            17 => vec![Op::Sweep(vec![]), random_op(rng)],
+            18 => vec![random_op(rng), Op::Sweep(vec![])],
+            _ => vec![Op::Sweep(vec![]), random_op(rng), Op::Sweep(vec![])],
+        };
+        // the writers: mostly puts of both TTL classes on the keys that expire
+        let wop = |rng: &mut Rng| {
+            if rng.chance(1, 2) {
+                let k = if rng.chance(3, 4) { 0 } else { rng.below(NKEYS as u64) as usize };
+                Op::Put(k, vec![rng.byte(); rng.below(5) as usize], rng.chance(1, 3))
+            } else {
+                random_op(rng)
+            }
+        };
+        let mut progs: Vec<Vec<Op>> = (1..nt).map(|_| (0..rng.range(1, 3)).map(|_| wop(rng)).collect()).collect();
+        let at = rng.below(nt as u64) as usize;
+        progs.insert(at, sweeper);
+        Case { max, fifo: rng.chance(1, 3), pre, progs }
+    }
+
+    fn sweep_sections(r: &mut Runner, rng: &mut Rng, thorough: bool) {
+        let t0 = Instant::now();
+        let alpha = alphabet();
+        let w = |hint: &[usize]| Op::Sweep(hint.to_vec());
+        // G. every schedule of one tick of the cleanup task against every single operation,
+        //    over every sweep start state and both iteration orders of two expired keys
+        let (mut sets, mut truncated) = (0u64, 0u64);
+        for pre in &sweep_pres() {
+            for hint in &sweep_hints(pre) {
+                for b in &alpha {
+                    let case = Case { max: 1000, fifo: false, pre: pre.clone(), progs: vec![vec![w(hint)], vec![b.clone()]] };
+                    let (_, tr) = run_all(r, &case, 100_000);
+                    sets += 1;
+                    truncated += tr as u64;
+                }
+            }
+        }
+        r.s.tally_n("G:sweep||op-all-schedules", sets);
+        // H. sampled program sets, every schedule up to a cap: sweep || two operations of one
+        //    thread; sweep || two threads; two ticks || one operation
+        let (nh, cap) = if thorough { (150, 5_000) } else { (10, 350) };
+        let pres = sweep_pres();
+        for i in 0..3 * nh {
+            let pre = rng.pick(&pres).clone();
+            let hint = rng.pick(&sweep_hints(&pre)).clone();
+            let (a, b) = (rng.pick(&alpha).clone(), rng.pick(&alpha).clone());
+            let progs = match i % 3 {
+                0 => vec![vec![w(&hint)], vec![a, b]],
+                1 => vec![vec![a], vec![w(&hint)], vec![b]],
+                _ => vec![vec![a], vec![w(&hint), w(&hint)]],
+            };
+            let case = Case { max: *rng.pick(&[1000usize, 1000, 1000, 2]), fifo: rng.chance(1, 4), pre, progs };
+            let (_, tr) = run_all(r, &case, cap);
+            truncated += tr as u64;
+        }
+        r.s.tally_n("H:sweep-program-sets-all-schedules", 3 * nh);
+        r.s.tally_n("sweep:enumerations-cut-at-cap", truncated);
+        // I. random programs with a cleanup-task thread, random schedules
+        let ni = if thorough { 30_000 } else { 1_500 };
+        for i in 0..ni {
+            let case = random_sweep_case(rng, if i % 3 == 2 { 3 } else { 2 });
+            run_random(r, rng, &case);
+        }
+        r.s.tally_n("I:sweep-random-cases", ni);
+        r.s.extra("wall_ms_sweep", serde_json::json!(t0.elapsed().as_millis() as u64));
+    }
+
     pub fn main() {
         let args = Args::parse();
         quiet_panics();
@@ -2314,6 +2788,8 @@ mod real {
             run_random(&mut r, &mut rng, &case);
         }
         r.s.tally_n("C:random-cases", nc);
+        // G-I. the background cleanup task of new_with_cleanup as a scheduled thread
+        sweep_sections(&mut r, &mut rng, args.thorough());
         // ---- DiskCache under the controller
         r.s.line("drun keys=a,b pre=- t=g5 s=-", "bad-op");
         let t1 = Instant::now();
